@@ -51,6 +51,11 @@ def scale_loads_for(cfg, klass, g):
     elif klass.startswith("interior"):
         lo, hi = math.log(max(d_min * 4, d_max * 0.02)), math.log(d_max * 0.5)
         target = math.exp(float(g.uniform(lo, max(lo + 0.1, hi))))
+    elif klass == "cap-binding":
+        cap = cfg["design"]["max_boreholes"]
+        target = cap * geo["max_height"] * float(g.uniform(3.0, 10.0))  # the crude capacity estimate below is conservative by ~2-3x
+    elif klass == "cap-huge":
+        target = d_max * float(g.uniform(3.0, 30.0))
     elif klass == "large":
         target = d_max * float(g.uniform(0.6, 0.95))
     else:
@@ -77,6 +82,14 @@ def make_cfg(g, method, pipe, flow_type, klass, flag, cap_bh):
     if klass == "interior-cap" and method != "ROWWISE":
         n_min, n_max = candidate_range(cfg["geometric_constraints"])
         cfg["design"]["max_boreholes"] = int(max(2, g.integers(max(3, n_max // 6), max(4, n_max // 2) + 1)))
+    if klass in ("cap-binding", "cap-huge"):
+        # a cap well inside the candidate range and loads beyond what the capped fields can carry: the cap decides the outcome
+        n_min, n_max = candidate_range(cfg["geometric_constraints"])
+        if g.random() < 0.5:
+            cfg["design"]["max_boreholes"] = int(max(3, g.integers(max(3, n_max // 5), max(4, n_max // 2) + 1)))
+        else:
+            # a cap above every field of the sparsest nested list but below the densest fields
+            cfg["design"]["max_boreholes"] = int(max(3, round(n_max * float(g.uniform(0.55, 0.95)))))
     cfg["loads_desc"]["scale"] = scale_loads_for(cfg, klass, g)
     cfg["_class"] = klass
     return cfg
@@ -99,6 +112,16 @@ def plan(tier, seed):
     for method, klass in (("NEARSQUARE", "tiny"), ("NEARSQUARE", "huge"), ("RECTANGLE", "tiny"), ("RECTANGLE", "huge"), ("BIRECTANGLE", "huge"), ("BIRECTANGLE", "tiny")):
         cfgs.append(make_cfg(g, method, "SINGLEUTUBE", "BOREHOLE", klass, False, 64))
         cfgs.append(make_cfg(g, method, "SINGLEUTUBE", "SYSTEM", klass, True, 64))
+    # cap-binding runs of every capped method (flag both ways) and small-lot bi-rectangle runs with small loads (the outer search
+    # settles on the first nested list): situations the rotation above reaches only by chance
+    for method in ("NEARSQUARE", "RECTANGLE", "BIRECTANGLE", "BIZONEDRECTANGLE", "BIRECTANGLECONSTRAINED"):
+        for flag in (True, False):
+            for _rep in range({"quick": 2, "thorough": 8}[tier]):
+                cfgs.append(make_cfg(g, method, GP.PIPES[len(cfgs) % 4], "BOREHOLE", "cap-binding", flag, 64))
+        for _rep in range({"quick": 2, "thorough": 6}[tier]):
+            cfgs.append(make_cfg(g, method, GP.PIPES[len(cfgs) % 4], "BOREHOLE", "cap-huge", True, 64))
+    for k in range({"quick": 8, "thorough": 48}[tier]):
+        cfgs.append(make_cfg(g, "BIRECTANGLE", GP.PIPES[k % 4], ["BOREHOLE", "SYSTEM"][k % 2], ["small", "interior", "small", "interior"][k % 4], k % 3 == 0, 36))
     return cfgs
 
 
